@@ -19,3 +19,12 @@ def check(run, only=None):
         out = fw.merge_worker_results(results, RULE.format(n=n, r=r))
         out["extra"]["grammars"] = len(gs)
         run.add_bounded(out)
+    if only in (None, "P"):
+        from vlib.props import pcommon
+        from vlib.companions import parserfuncs as pf
+        import contracts.tables_items as ti
+        pcommon.add_proof(run, "C05", ti.ITEMS_C05, [pf.run_items],
+                          "LRItem: get_pos_inc returns None exactly at the end of the production, otherwise a NEW item with "
+                          "the same production, position + 1 and a COPY of the look-ahead set (same members, different "
+                          "object: the aliasing of defect 3039629 is excluded for every item); __init__ never shares a "
+                          "default look-ahead set; is_at_end / symbol_at_position")
